@@ -542,6 +542,8 @@ def problems(draw, profile=None):
         xp = draw(wsample(P["x0_pats"]))
         if xp == "in":
             v = lo + (hi - lo) * draw(st.integers(0, 8)) / 8
+        elif xp == "ref":
+            v = r  # start at the reference point the constraint limits are drawn around
         elif xp == "lb":
             v = lo
         elif xp == "ub":
